@@ -25,10 +25,51 @@ def rng(seed, *salt):
     return random.Random("%s/%s" % (seed, "/".join(str(s) for s in salt)))
 
 
+def perturb(ctx, text, ts, opts=None):
+    """History perturbation: every 4th observed call is preceded by one UNOBSERVED call that must not matter -- the same
+    text under another reference time left as an abandoned stream, the same text in another letter case, the same call
+    with a deadline that expires at once, the same call with latent anchoring flipped, or an abandoned stream of the very
+    same call.  By C12 none of these may influence the observed call, so on a correct tree this adds nothing but load; a
+    cache keyed on too little, or state left dirty by an unfinished / timed-out call, then shows up under the oracle of
+    whichever property is being checked."""
+    mon, L = ctx["mon"], ctx["L"]
+    # deterministic pseudo-random choice (an LCG per worker), so that the perturbed calls do not line up with the
+    # per-case call pattern of a property
+    x = ctx["_pert_x"] = (ctx.get("_pert_x", 12345) * 1103515245 + 12345) % (1 << 31)
+    if (x >> 8) % 4 or ts is None or not isinstance(text, str):
+        return
+    mode = (x >> 16) % 5
+    o = dict(opts or {})
+    o.pop("debug", None)
+    o["timeout"] = 0
+    from datetime import timedelta
+    from ..attach import StepBudget
+    try:
+        if mode == 0:
+            g = L.ctparse_gen(text, ts=ts + timedelta(days=200, hours=7), **dict(o, latent_time=True))
+            next(g, None)
+            ctx.setdefault("_abandoned", []).append(g)
+        elif mode == 1:
+            L.ctparse(text.upper() if text != text.upper() else text.lower(), ts=ts, **o)
+        elif mode == 2:
+            L.ctparse(text, ts=ts, **dict(o, timeout=1e-9))
+        elif mode == 3:
+            list(L.ctparse_gen(text, ts=ts, **dict(o, latent_time=not o.get("latent_time", True))))
+        else:
+            g = L.ctparse_gen(text, ts=ts, **o)
+            next(g, None)
+            ctx.setdefault("_abandoned", []).append(g)
+        ctx["_abandoned"] = ctx.get("_abandoned", [])[-3:]
+    except (Exception, StepBudget):
+        pass
+    mon.events["history_perturbation/%d" % mode] += 1
+
+
 def api(ctx, text, ts, **opts):
     """one observed call of the single-result API under configuration D
     (defaults, timeout=0)"""
     mon = ctx["mon"]
+    perturb(ctx, text, ts, opts)
     mon.begin()
     opts.setdefault("timeout", 0)
     mon.events["api_call"] += 1
